@@ -10,6 +10,7 @@ NOTE = ("Trusted: z3 5.1 (FP obligations: cvc5 1.0.3), the symx proxies and shim
         "library with the real bitstruct). Bounds and everything outside them are listed in "
         "the evidence file and DESIGN.md.")
 CLAIMED = {
+ "C12": ("§5 C12", "Telegrams of every enumerated length (1..130 and the boundaries up to 4095; classic and FD frame sizes) are segmented by a reference ISO 15765-2 sender with symbolic payload and padding bytes; sequences per id, symbolic (value-forked) interleaving schedules of up to 3 ids with inserted flow-control/unrelated frames, and an inductive isolation step (one arbitrary frame from an arbitrary state of all ids leaves every other id's state untouched) are run through the real decode_rx_frame; equality of reported and transmitted telegrams is a solver verdict over all payload bytes. Flow-control answers of IsoTpActiveDecoder are checked per first frame; both candump text formats at witness level."),
  "C13": ("§5 C13", "All byte values of up to 3 (quick) / 4 (thorough) arbitrary CAN frames from the initial state, plus ONE arbitrary frame from an ARBITRARY state (announced length, sequence index, buffer contents symbolic): an inductive step which shows that the real decode_rx_frame keeps simulating a reference reassembler, extending the result to histories of any length within the enumerated buffer/frame lengths. Solver verdict per path, not sampling."),
 }
 NA = {
